@@ -12,3 +12,6 @@ pub mod errs;
 pub mod aggs;
 pub mod tree;
 pub mod round;
+pub mod generated;
+pub mod domjt;
+pub mod conf;
